@@ -387,6 +387,20 @@ impl ChunkFooter {
     fn is_empty(&self) -> bool {
         ptr::eq(self, EMPTY_CHUNK.get().as_ptr())
     }
+
+    /// Move this chunk's bump pointer.
+    ///
+    /// Never writes when the value does not change. The canonical empty
+    /// chunk is shared by every arena (on every thread) that has not
+    /// allocated a chunk yet; zero-sized allocations, deallocations and
+    /// rewinds "move" its bump pointer to the value it already has, and an
+    /// unconditional store there would be a data race between threads.
+    #[inline]
+    fn set_ptr(&self, ptr: NonNull<u8>) {
+        if self.ptr.get() != ptr {
+            self.ptr.set(ptr);
+        }
+    }
 }
 
 impl<const MIN_ALIGN: usize> Default for Bump<MIN_ALIGN> {
@@ -1245,7 +1259,7 @@ impl<const MIN_ALIGN: usize> Bump<MIN_ALIGN> {
                         // added).
                         #[cfg(bumpalo_verif)]
                         crate::__verif::footer_store(current_footer_p.as_ptr() as usize, crate::__verif::SITE_REWIND_SAME);
-                        current_ptr.set(rewind_ptr);
+                        current_footer_p.as_ref().set_ptr(rewind_ptr);
                     } else {
                         // We allocated a new chunk for this result.
                         //
@@ -1358,7 +1372,7 @@ impl<const MIN_ALIGN: usize> Bump<MIN_ALIGN> {
                         // added).
                         #[cfg(bumpalo_verif)]
                         crate::__verif::footer_store(current_footer_p.as_ptr() as usize, crate::__verif::SITE_REWIND_SAME);
-                        current_ptr.set(rewind_ptr);
+                        current_footer_p.as_ref().set_ptr(rewind_ptr);
                     } else {
                         // We allocated a new chunk for this result.
                         //
@@ -2003,7 +2017,7 @@ impl<const MIN_ALIGN: usize> Bump<MIN_ALIGN> {
 
             #[cfg(bumpalo_verif)]
             crate::__verif::footer_store(footer_ptr.as_ptr() as usize, crate::__verif::SITE_FAST);
-            footer.ptr.set(aligned_ptr);
+            footer.set_ptr(aligned_ptr);
             Some(aligned_ptr)
         }
     }
@@ -2268,7 +2282,7 @@ impl<const MIN_ALIGN: usize> Bump<MIN_ALIGN> {
             let ptr = NonNull::new_unchecked(ptr);
             #[cfg(bumpalo_verif)]
             crate::__verif::footer_store(self.current_chunk_footer.get().as_ptr() as usize, crate::__verif::SITE_DEALLOC);
-            self.current_chunk_footer.get().as_ref().ptr.set(ptr);
+            self.current_chunk_footer.get().as_ref().set_ptr(ptr);
         }
     }
 
@@ -2356,7 +2370,7 @@ impl<const MIN_ALIGN: usize> Bump<MIN_ALIGN> {
             );
             #[cfg(bumpalo_verif)]
             crate::__verif::footer_store(footer as *const ChunkFooter as usize, crate::__verif::SITE_SHRINK);
-            footer.ptr.set(new_ptr);
+            footer.set_ptr(new_ptr);
 
             // NB: we know it is non-overlapping because of the size check
             // in the `if` condition.
